@@ -4,7 +4,7 @@ import N0Verif.Proofs.CompareTransformKeyed
 /-!
 # C10 — exclude_xpaths, compare_only and transform only narrow or map what is compared
 
-Model: `N0Verif/Model/Compare.lean` (the code with fix patches C07-a, C08-a, C09-a applied).
+Model: `N0Verif/Model/Compare.lean` (the code with fix patches C07-a, C08-a, C09-a, C07-b, C07-c, C09-b, C10-a applied).
 `Res.diffPart` = number of `differences` lines and the four difference lists;
 `Res.filterPaths keep` keeps the entries whose path satisfies `keep` (and recounts the lines).
 -/
@@ -70,20 +70,53 @@ theorem C10_transform_verdict (cfg : Cfg) (hd : cfg.direct = true) (hl : LeafTra
     verdict (compareTop cfg a b) = verdict (compareTop { cfg with tr := [] } (mapT cfg [] a) (mapT cfg [] b)) :=
   transform_direct_verdict cfg hd hl a b
 
-/-- the full-strength statement (both entry points); refuted for the keyed entry point by
-`C10_transform_keyed_cex` — finding C10-a, not a gap -/
+/-- the full-strength statement (both entry points, every tree); still false for the keyed entry point on trees
+with a list nested in a list (`C10_transform_keyed_nested_cex`) and with a composite key
+(`C10_transform_keyed_ck_cex`); proved for the keyed entry point on lists of records and lists of leaves:
+`C10_transform_keyed` -/
 def C10_transform_stmt : Prop :=
   ∀ (cfg : Cfg), LeafTransform cfg → ∀ a b : Val,
     TrERel (compareTop cfg a b) (compareTop (noTransf cfg) (mapT cfg [] a) (mapT cfg [] b))
 
-/-- finding C10-a: the keyed compare pairs non-record list items by `str()` of the *untransformed* value:
-`{'a': ['A']}` vs `{'a': ['a']}` with `('//a', lower)` reports two differences although the mapped trees are equal -/
-theorem C10_transform_keyed_cex :
-    (match compareTop trCexCfg trCexA trCexB with | .ok r => r.diffs | .error _ => 0) = 2 ∧
+/-- fix C10-a: the keyed compare pairs non-record list items by the key of the *transformed* value:
+`{'a': ['A']}` vs `{'a': ['a']}` with `('//a', lower)` reports nothing, as on the mapped trees (before the fix:
+two unique entries) -/
+theorem C10_transform_keyed_example :
+    (match compareTop trCexCfg trCexA trCexB with | .ok r => r.diffs | .error _ => 1) = 0 ∧
       mapT trCexCfg [] trCexA = mapT trCexCfg [] trCexB ∧
       (match compareTop { trCexCfg with tr := [] } (mapT trCexCfg [] trCexA) (mapT trCexCfg [] trCexB) with
         | .ok r => r.diffs | .error _ => 1) = 0 :=
-  transform_keyed_cex
+  transform_keyed_example
+
+/-- what stays outside: a list nested in a list whose leaves are transformed by a pattern naming the index
+(`//a[0]`): the outer items `['A']`, `['a']` are keyed by their own JSON text and do not meet, while the mapped
+trees are equal -/
+theorem C10_transform_keyed_nested_cex :
+    LeafTransform trNestCfg ∧
+    (match compareTop trNestCfg trNestA trNestB with | .ok r => r.diffs | .error _ => 0) = 2 ∧
+      mapT trNestCfg [] trNestA = mapT trNestCfg [] trNestB ∧
+      (match compareTop { trNestCfg with tr := [] } (mapT trNestCfg [] trNestA) (mapT trNestCfg [] trNestB) with
+        | .ok r => r.diffs | .error _ => 1) = 0 :=
+  ⟨trNestCfg_leaf, transform_keyed_nested_cex⟩
+
+theorem C10_transform_refuted : ¬ C10_transform_stmt := by
+  intro h
+  have h1 := h trNestCfg trNestCfg_leaf trNestA trNestB
+  obtain ⟨c1, c2, c3⟩ := transform_keyed_nested_cex
+  cases hc : compareTop trNestCfg trNestA trNestB with
+  | error e => rw [hc] at c1; simp at c1
+  | ok r =>
+    cases hc' : compareTop (noTransf trNestCfg) (mapT trNestCfg [] trNestA) (mapT trNestCfg [] trNestB) with
+    | error e => rw [hc, hc'] at h1; exact h1.elim
+    | ok r' =>
+      rw [hc, hc'] at h1
+      simp only [tr_erel_ok_ok, Res.shape, Prod.mk.injEq] at h1
+      rw [hc] at c1
+      change (match compareTop (noTransf trNestCfg) (mapT trNestCfg [] trNestA) (mapT trNestCfg [] trNestB) with
+        | .ok r => r.diffs | .error _ => 1) = 0 at c3
+      rw [hc'] at c3
+      simp only at c1 c3
+      omega
 
 /-- **C10 (transform, keyed/default comparison, lists of records).**  For `compare` without a composite key
 (`cfg.direct = false`, `cfg.ck` empty), `LeafTransform cfg`, every other option and flag record, on trees all of
